@@ -791,6 +791,7 @@ func execProgram(id int, p *Program, emit func(string)) (*failure, bool) {
 	tr := newTracker()
 	realCps := map[int]*unionstore.MemDBCheckpoint{}
 	var stageObs []string
+	wasDirty := false
 	cpObs := map[int]string{}
 	var fail *failure
 	setFail := func(name string, idx int, detail string) {
@@ -835,7 +836,9 @@ func execProgram(id int, p *Program, emit func(string)) (*failure, bool) {
 				res = "panic"
 			} else if err != nil {
 				res = "err"
-				if _, ok := err.(*tikverr.ErrEntryTooLarge); ok {
+				if _, ok := err.(*tikverr.ErrKeyTooLarge); ok {
+					res = "keytoolarge"
+				} else if _, ok := err.(*tikverr.ErrEntryTooLarge); ok {
 					res = "entrytoolarge"
 				} else if _, ok := err.(*tikverr.ErrTxnTooLarge); ok {
 					res = "txntoolarge"
@@ -848,6 +851,8 @@ func execProgram(id int, p *Program, emit func(string)) (*failure, bool) {
 			applied := true
 			if o.Op == "set" && len(v) == 0 {
 				want, applied = "err", false
+			} else if len(k) > 65535 {
+				want, applied = "keytoolarge", false
 			} else if uint64(len(k)+len(v)) > ref.elim {
 				want, applied = "entrytoolarge", false
 			}
@@ -1123,7 +1128,9 @@ func execProgram(id int, p *Program, emit func(string)) (*failure, bool) {
 			if pan != "" {
 				res = "panic"
 			}
-			ref.flags[string(k)] = refApply(ref.flags[string(k)], ff)
+			if len(k) <= 65535 { // a longer key is silently ignored
+				ref.flags[string(k)] = refApply(ref.flags[string(k)], ff)
+			}
 			line(idx, "uflags", []string{hd(o.K), fopsString(ff)}, res)
 			if !oracle("flags-update-accepted", pan == "") {
 				setFail("flags-update-accepted", idx, pan)
@@ -1164,6 +1171,23 @@ func execProgram(id int, p *Program, emit func(string)) (*failure, bool) {
 				if !oracle("has-presume-kne", has == (ok && wf&(1|4096) != 0)) {
 					setFail("has-presume-kne", idx, fmt.Sprint(has))
 				}
+			}
+		case "dirty":
+			var d bool
+			pan := protect(func() { d = buf.Dirty() })
+			res := strconv.FormatBool(d)
+			if pan != "" {
+				res = "panic"
+			}
+			line(idx, "dirty", nil, res)
+			// a buffer that holds a value or a flag written outside every staging level is dirty; never clean again
+			if !oracle("dirty-is-monotone", pan == "" && (d || !wasDirty)) {
+				setFail("dirty-is-monotone", idx, res)
+			}
+			wasDirty = wasDirty || d
+		case "sseq":
+			if n, ok := unionstore.VerifUnionSnapshotSeq(buf); ok {
+				line(idx, "sseq", nil, strconv.Itoa(n))
 			}
 		case "len":
 			var n, sz int
@@ -1669,7 +1693,14 @@ func genProgram(r *rand.Rand, targetKind string, nops int, big bool) *Program {
 		case x >= 106 && x < 110:
 			p.Ops = append(p.Ops, Op{Op: "gflags", K: hx(pick())})
 		case x >= 110 && x < 113:
-			p.Ops = append(p.Ops, Op{Op: "len"})
+			switch r.Intn(3) {
+			case 0:
+				p.Ops = append(p.Ops, Op{Op: "dirty"})
+			case 1:
+				p.Ops = append(p.Ops, Op{Op: "sseq"})
+			default:
+				p.Ops = append(p.Ops, Op{Op: "len"})
+			}
 		case x >= 113 && x < 116:
 			if r.Intn(3) == 0 {
 				p.Ops = append(p.Ops, Op{Op: "riterf", Hi: hx(genBound(r, pool))})
@@ -2005,6 +2036,15 @@ func main() {
 			{Op: "staging"}, {Op: "del", K: "6161"}, {Op: "set", K: "7a61", V: "cc"}, {Op: "bget", Keys: all}, {Op: "cleanup", H: -1},
 			{Op: "split", K: "7a62", H: 1}, {Op: "bget", Keys: all}, {Op: "iter"}, {Op: "riter"}}})
 		gstats["directed-txn-batchget-mixed-regions"]++
+	}
+	// directed: key length limit (65535 accepted, 65536 rejected; UpdateFlags ignores the long key silently)
+	for _, kind := range []string{"art", "rbt"} {
+		k1 := hx(bytes.Repeat([]byte{'k'}, 65535))
+		k2 := hx(bytes.Repeat([]byte{'k'}, 65536))
+		runOne(&Program{Target: kind, Ops: []Op{{Op: "set", K: k2, V: "01"}, {Op: "del", K: k2}, {Op: "uflags", K: k2, F: []int{2}}, {Op: "len"}, {Op: "dirty"},
+			{Op: "gflags", K: k2}, {Op: "set", K: k1, V: "01", F: []int{2}}, {Op: "get", K: k1}, {Op: "len"}, {Op: "dirty"}, {Op: "sseq"}, {Op: "iterf"},
+			{Op: "staging"}, {Op: "set", K: k2, V: "02"}, {Op: "del", K: k1}, {Op: "cleanup", H: -1}, {Op: "get", K: k1}, {Op: "len"}, {Op: "sseq"}}})
+		gstats["directed-key-length-limit"]++
 	}
 	nPipe := nTxn * 2
 	for i := 0; i < nPipe; i++ {
